@@ -1,5 +1,5 @@
 CONSTANTS MaxScript = 0 MaxPause = 0 MaxN = 99 Dev = {}
 INIT FileInit
 NEXT Stutter
-INVARIANT JudgeSound
+INVARIANT JudgePause
 CHECK_DEADLOCK FALSE
